@@ -23,6 +23,8 @@ import xml.etree.ElementTree as ET
 
 from mc import par, pipeline
 
+SEQUENCE_MODULES = {"hidden": "Counter()"}
+
 ID = "C18"
 LEVEL = "exploration"
 
@@ -72,7 +74,12 @@ def shard(col, module, mode, pop_bound, limit, n_groups, variants):
     scratch = tempfile.mkdtemp(prefix="c18_", dir="/dev/shm")
     try:
         pipe = pipeline.Pipe(module, scratch)
-        tests, _ = pipe.population(bound=pop_bound, limit=limit)
+        if module in SEQUENCE_MODULES:
+            # private object state: every call sequence of <= 4 accessibles on ONE object
+            tests = [t for t in pipe.population_sequences(4)
+                     if t.size() >= 3 and t.to_code().count(SEQUENCE_MODULES[module]) == 1]
+        else:
+            tests, _ = pipe.population(bound=pop_bound, limit=limit)
         # core = one (smallest) test per distinct set of called accessibles, so that suites mix tests
         # with different kinds of assertions (float / int / str / object state / raising)
         by_calls = {}
@@ -179,7 +186,7 @@ def shard(col, module, mode, pop_bound, limit, n_groups, variants):
 
 def run(ctx):
     quick = ctx.quick
-    modules = ["numeric", "containers", "shapes", "strings", "raising", "nested", "excs"]
+    modules = ["numeric", "containers", "shapes", "strings", "raising", "nested", "excs", "hidden"]
     if not quick:
         modules += ["enums", "lambdas", "floats"]
     variants_q = [(False, False, True), (True, False, False), (False, True, True)]
